@@ -154,6 +154,8 @@ class _Tree(_Scope):
                 return V.VBool(self.isc(V.addr(obj)))
             lib.used("lemma:L-TREE (is_completed(s) <=> completed(s) under I2)")
             return V.VBool(self.terms(it)["comp"](V.addr(obj)))
+        if name == "_finished":             # the plain field of a nested scope (element of a _nested list)
+            return self.terms(it)["finv"](V.addr(obj))
         return None
 
     def snapshot(self, it):
